@@ -612,7 +612,9 @@ namespace R
             case PRED_OR: return ( pos < end && ( ch( pos ) == 'a' || ch( pos ) == 'c' ) ) ? ok( pos + 1 ) : fail();
             case SEPARATED_SEQ: return seq( B, [ = ]( int q ) { return seq( A, C, q ); }, pos );  // separated_seq< S, X, Y > = seq< X, S, Y >
             case IF_THEN_ELSE_THEN: return ite( A, B, C, pos );  // if_then< A, B >::else_then< C >
-            case IF_THEN: return ite( A, B, [ = ]( int ) { return fail(); }, pos );  // if_then< A, B > without else: fails when A fails
+            case IF_THEN: return ite( A, B, [ = ]( int ) { return fail(); }, pos );
+            case IF_THEN_CHAIN:  // if_then< A, B >::else_if_then< B, C >::else_if_then< C, A >: the pairs are tried in the order written
+               return ite( A, B, [ = ]( int q ) { return ite( B, C, [ = ]( int z ) { return ite( C, A, [ = ]( int ) { return fail(); }, z ); }, q ); }, pos );  // if_then< A, B > without else: fails when A fails
 
             case STAR: return star( A, pos );
             case PLUS: return seq( A, [ = ]( int q ) { return star( A, q ); }, pos );
@@ -792,7 +794,8 @@ namespace R
             case AT_ONE_A: return ( pos < end && ch( pos ) == 'a' ) ? ok( pos ) : fail();
             case NOT_AT_ONE_A: return ( pos < end && ch( pos ) == 'a' ) ? fail() : ok( pos );
             case ACTION_ALT:
-            case CONTROL_ALT: return A( pos );  // [Equivalent] to seq< R... > with respect to matching
+            case CONTROL_ALT: return A( pos );
+            case CUSTOM_ANY: return seq( A, [ = ]( int q ) { return ( q < end && ch( q ) == ';' ) ? ok( q + 1 ) : fail(); }, pos );  // [Equivalent] to seq< R... > with respect to matching
             case RAW1: {
                // opening long bracket, then until< at close, Contents >, then the closing bracket
                int q = pos;
